@@ -228,6 +228,10 @@ pub fn run(run: &mut Run) -> PResult {
     run.rule = "all 65,536 values through HandRank::from / determine_name / determine_class / is_invalid / is_a_valid_hand_rank, compared as text with the category and class the model derives for the poker class of that ordinal; all enum variants (each non-Invalid variant must label one contiguous non-empty value range); all 5-card subsets in all 120 slot orders, all 6-card subsets and (quick: 1-in-8 stratum / thorough: all) 7-card subsets in ascending, descending and one seeded slot order through hand_rank() and hand_rank_validated(). Non-trivial values = those not at either end of their class range (the suite pins ends); distinct = distinct values / subsets".into();
     run.assume("enum variants are compared by their Debug text against the documented spellings (Trey, Deuce, ...): renaming a variant is meant to be reported");
     super::regress::replay_dir(run, "C06", check_case)?;
+    {
+        let items: Vec<u16> = (0..=7470u16).chain((7471..=u16::MAX).step_by(97)).chain([8192, 8193, 16384, 32768, 65535]).collect();
+        disturbance_pass(run, &items, &|v| value_clauses(*v).map_err(|(c, m)| format!("{}: {}", c, m)), &|v| ("C06.value".into(), json!({"value": v}), format!("value={}", v)))?;
+    }
     // values
     let mut interior = 0u64;
     let mut samples = Vec::new();
@@ -344,6 +348,9 @@ pub fn run(run: &mut Run) -> PResult {
 }
 
 pub fn check_case(clause: &str, case: &Value) -> Result<(), String> {
+    if clause.ends_with(".after_disturbance") {
+        return replay_after_disturbance(case, check_case);
+    }
     match clause {
         "C06.hand" => hand_clause(&engine::parse_words(&case["words"])?),
         "C06.sequence" => pair_sequence(case["a"].as_u64().ok_or("a")? as u16, case["b"].as_u64().ok_or("b")? as u16),
